@@ -52,6 +52,9 @@ def gen_one(rng, tier):
     case = {'classes': wl.gen_classes(rng, rng.randint(3, 8 if big else 6),
                                       ('',)),
             'ids': wl.gen_ids(rng, rng.randint(3, 7 if big else 5)),
+            # id_generator_factory: default count(1), or custom generators
+            # whose values collide with the explicit id pool
+            'idgen': rng.choice([None, None, None, 'count3', 'letters']),
             'ops': []}
     wl.gen_ops(rng, case, rng.randint(1, 80 if big else 40), WEIGHTS)
     return case
@@ -64,6 +67,16 @@ def gen_cases(tier, seed):
 
 
 class C01Driver(wl.Driver):
+    def make_world(self):
+        import itertools
+        kind = self.case.get('idgen')
+        if kind == 'count3':
+            return self.desper.World(lambda: itertools.count(3))
+        if kind == 'letters':
+            return self.desper.World(lambda: iter(
+                ['e', 'f', ('t', 1), 2, 1] + [f'g{i}' for i in range(200)]))
+        return self.desper.World()
+
     def __init__(self, case, res):
         super().__init__(case, res)
         self.touch = collections.defaultdict(list)    # id -> [op kinds]
